@@ -43,10 +43,12 @@ if nocompile:
     f2 = max(f2, 1)
 ran.append(f"with change: cargo test --offline --test seeded_demo -> " + ("does not compile: " + re.findall(r"error\[E\d+\][^\n]*", r.stdout)[0] if nocompile else f"{p2} passed, {f2} failed"))
 # (3) demo without the change
-sh("git stash push -- src")
+# (no `git stash`: the stash is shared between the worktrees of one repository)
+open("/tmp/seedkeep.patch", "w").write(patch)
+sh("git checkout -- src")
 r = sh("cargo test --offline --test seeded_demo 2>&1")
 p3, f3 = counts(r.stdout)
-sh("git stash pop")
+assert sh("git apply /tmp/seedkeep.patch").returncode == 0
 ran.append(f"without change: cargo test --offline --test seeded_demo -> {p3} passed, {f3} failed")
 ok = (p1 == 87 and f1 == 0 and f2 > 0 and f3 == 0 and p3 > 0)
 print("\n".join(ran))
